@@ -4,11 +4,14 @@ from .. import sheetcases as SC, impl
 from ..gens import sheet as S
 
 
-def classes_of(sh):
+def classes_of(sh, recompiled=False):
+    """classifiers of recorded findings a mismatch on this sheet may be an instance of.  'media-feature-first' (F5b) only concerns
+    output that is read back by the front end (C10): the model reproduces the spelling and the reference comparison ignores
+    blanks around parentheses, so for every other check it is NOT attached (it would hide a different violation)"""
     cl = []
     if S.has_amp_after_bracket(sh):
         cl.append('amp-bracket')
-    if S.media_feature_first(sh):
+    if recompiled and S.media_feature_first(sh):
         cl.append('media-feature-first')
     if S.arguments_after_call(sh):
         cl.append('arguments-after-nested-call')
